@@ -317,12 +317,12 @@ func main() {
 	if cfg.Thorough() {
 		scale = 25
 	}
-	for i := 0; i < 1500*scale; i++ {
+	for i := 0; i < 1200*scale; i++ {
 		add(Case{K: "query", Raws: genPatterns(r, 5), Path: genPath(r), Dir: r.Intn(2) == 0}, "random")
 	}
-	for t := 0; t < 120*scale; t++ {
+	for t := 0; t < 60*scale; t++ {
 		tr := igntree.Random(r, 4, 4, names)
-		for j := 0; j < 10; j++ {
+		for j := 0; j < 8; j++ {
 			c := Case{K: "scan", Raws: genPatterns(r, 5), Tree: tr, BetaSame: r.Intn(3) == 0}
 			if r.Intn(2) == 0 {
 				c.Anc = coretree.ToJ(genAncestor(r, tr, 3+r.Intn(8)))
